@@ -346,8 +346,11 @@ def run_check(prop, tier, seed, replay, cfg):
 
 def _classify(S, known):
     """split the failures of the search leg into listed known findings and violations"""
-    seen, viol = {}, []
+    seen, viol, dup = {}, [], set()
     for f in S.get('failures', []):
+        if (f['hex'], f['check']) in dup:
+            continue
+        dup.add((f['hex'], f['check']))
         cls = f.get('classes') or []
         if cls and all(c in known for c in cls):
             for c in cls:
@@ -399,7 +402,8 @@ def _run_check(prop, tier, seed, replay, cfg, t_start, log, rundir):
     # ---------------- P leg
     err = checklib.ensure_setup(log)
     if err:
-        P = {'ok': False, 'problems': ['setup failed: ' + err], 'obligations': 0, 'discharged': 0, 'theorems': [], 'axioms': [], 'checker_cmd': ''}
+        errl = [l for l in err.splitlines() if not l.startswith('Closed under')]
+        P = {'ok': False, 'problems': ['setup failed: ' + '\n'.join(errl[-12:])], 'obligations': 0, 'discharged': 0, 'theorems': [], 'axioms': [], 'checker_cmd': ''}
     else:
         P = checklib.proof_leg(prop, log)
     log.append('proof leg: ok=%s obligations=%d discharged=%d %.1fs' % (P['ok'], P.get('obligations', 0), P.get('discharged', 0), time.time() - t_start))
@@ -436,7 +440,8 @@ def _run_check(prop, tier, seed, replay, cfg, t_start, log, rundir):
     rc, replay_path, no_input = 0, None, False
     how = 'bin/check %s --replay <this file>   (VERIF_REPO selects the tree, default /repo)' % prop
     if viol:
-        v = sorted(viol, key=lambda f: (len(f['hex']), f['index']))[0]
+        viol = sorted(viol, key=lambda f: (len(f['hex']), f['index']))
+        v = viol[0]
         replay_path = checklib.write_replay(prop, 'failing-input', {
             'property': prop, 'kind': 'failing-input', 'leg': 'S', 'seed': seed, 'tier': tier, 'index': v['index'], 'generator': v.get('tag'),
             'input': dict(v.get('spec') or {}, hex=v['hex'], text=v['text']),
@@ -485,6 +490,31 @@ def _run_check(prop, tier, seed, replay, cfg, t_start, log, rundir):
               % (prop, P.get('discharged', 0), P.get('obligations', 0), T.get('inputs', 0), S.get('evaluations', 0), S['n_fail'], time.time() - t_start))
     sys.stdout.flush()
     return rc
+
+
+def corpus(prop):
+    """regression inputs of corpus/<prop>.jsonl: objects with "text" (or "hex") and optional expectations"""
+    out = []
+    try:
+        with open(os.path.join(ROOT, 'corpus', prop + '.jsonl')) as f:
+            for line in f:
+                line = line.strip()
+                if not line:
+                    continue
+                try:
+                    d = json.loads(line)
+                except ValueError:
+                    continue
+                if 'hex' in d:
+                    d['_bytes'] = bytes.fromhex(d['hex'])
+                elif 'text' in d:
+                    d['_bytes'] = d['text'].encode('utf-8', 'surrogatepass')
+                else:
+                    continue
+                out.append(d)
+    except OSError:
+        pass
+    return out
 
 
 def nontrivial_reject(kind):
